@@ -124,13 +124,15 @@
 (declare-fun frameiz (BStr (Array Int Int) Int Int (Array Int Int)) BStr)
 (assert (forall ((i BStr) (r (Array Int Int)) (o Int) (n Int) (b (Array Int Int))) (! (= (framei i r o n b) (frameiz i r o n b)) :pattern ((framei i r o n b)))))
 (assert (forall ((i BStr) (r (Array Int Int)) (o Int) (n Int) (b (Array Int Int))) (! (=> (<= n 0) (= (framei i r o n b) i)) :pattern ((framei i r o n b)))))
-(assert (forall ((i BStr) (r (Array Int Int)) (o Int) (n Int) (b (Array Int Int))) (! (=> (> n 0) (= (framei i r o n b) (cat (cat (cat (frameiz i r o (- n 1) b) (be (select b (select r (+ o (- n 1)))))) (single 36)) (le64 (blen (be (select b (select r (+ o (- n 1)))))))))) :pattern ((framei i r o n b)))))
+(assert (forall ((i BStr) (r (Array Int Int)) (o Int) (n Int) (b (Array Int Int))) (! (=> (> n 0) (= (framei i r o n b) (cat (cat (cat (frameiz i r o (- n 1) b) (be (ite (= (select r (+ o (- n 1))) 0) 0 (select b (select r (+ o (- n 1))))))) (single 36)) (le64 (blen (be (ite (= (select r (+ o (- n 1))) 0) 0 (select b (select r (+ o (- n 1))))))))))) :pattern ((framei i r o n b)))))
 ; frameb(init, S, o, n, E): the same over a [][]byte: S = backing array of slices, E = byte heap (SHA512_256 data)
 (declare-fun frameb (BStr (Array Int Slice) Int Int (Array Int (Array Int Int))) BStr)
 (declare-fun framebz (BStr (Array Int Slice) Int Int (Array Int (Array Int Int))) BStr)
 (assert (forall ((i BStr) (s (Array Int Slice)) (o Int) (n Int) (e (Array Int (Array Int Int)))) (! (= (frameb i s o n e) (framebz i s o n e)) :pattern ((frameb i s o n e)))))
 (assert (forall ((i BStr) (s (Array Int Slice)) (o Int) (n Int) (e (Array Int (Array Int Int)))) (! (=> (<= n 0) (= (frameb i s o n e) i)) :pattern ((frameb i s o n e)))))
 (assert (forall ((i BStr) (s (Array Int Slice)) (o Int) (n Int) (e (Array Int (Array Int Int)))) (! (=> (> n 0) (= (frameb i s o n e) (cat (cat (cat (framebz i s o (- n 1) e) (bs (select e (s-arr (select s (+ o (- n 1))))) (s-off (select s (+ o (- n 1)))) (s-len (select s (+ o (- n 1)))))) (single 36)) (le64 (s-len (select s (+ o (- n 1)))))))) :pattern ((frameb i s o n e)))))
+(assert (forall ((i BStr) (s (Array Int Slice)) (o Int) (n Int) (e (Array Int (Array Int Int)))) (! (=> (<= n 0) (= (framebz i s o n e) i)) :pattern ((framebz i s o n e)))))
+(assert (forall ((i BStr) (r (Array Int Int)) (o Int) (n Int) (b (Array Int Int))) (! (=> (<= n 0) (= (frameiz i r o n b) i)) :pattern ((frameiz i r o n b)))))
 (define-fun HK512_256 () Int 15)   ; crypto.SHA512_256
 (assert (= (hashlen 15) 32))
 
